@@ -485,9 +485,10 @@ def _has_array_constant(program):
 class Found(Exception):
     """A violation: (site, message, route, binding, reference)."""
 
-    def __init__(self, site, message, route, env=None, ref=None, extra=None):
+    def __init__(self, site, message, route, env=None, ref=None, extra=None, raised=None):
         super().__init__(message)
         self.site, self.message, self.route, self.env, self.ref, self.extra = site, message, route, env, ref, extra or {}
+        self.raised = raised  # name of the exception type when the route raised instead of returning a value
 
 
 def _call(route, prog, env, ref, prefix=""):
@@ -500,6 +501,7 @@ def _call(route, prog, env, ref, prefix=""):
             route,
             env,
             ref,
+            raised=type(ex).__name__,
         )
     if not L.close(got, ref):
         raise Found(prefix + route, "%s returned %s, reference %s" % (route, _short(got), _short(ref)), route, env, ref)
@@ -579,6 +581,7 @@ def check_program(program, points, all_envs, counters, prefix=""):
                 "as_code",
                 env,
                 ref,
+                raised=type(ex).__name__,
             )
         if not L.close(got, ref):
             raise Found(site, "exec(as_code()) returned %s, reference %s" % (_short(got), _short(ref)), "as_code", env, ref)
@@ -648,6 +651,7 @@ def check_expr(case, seed):
     feats["has_array_constant"] = _has_array_constant(program)
     feats["input_names_shadow_locals"] = any(_SHADOW.match(n) for n in program.inputs)
     nops = len(program.operations)
+    sub_status = []
     try:
         if set(program.inputs) != set(envs[0]) or len(program.inputs) != len(envs[0]):
             raise Found(
@@ -660,6 +664,7 @@ def check_expr(case, seed):
         # (ii) the statement's right-hand side: substitution of the arrays into the expression
         leaf = {rn.get(s[1], s[1]): s for s in ins}
         for env, ref in pts:
+            sub_status.append(None)
             try:
                 from funsor.interpreter import reinterpret
 
@@ -669,11 +674,14 @@ def check_expr(case, seed):
                     sub = reinterpret(sub)
                 val = ground(sub)
             except Exception as ex:
+                sub_status[-1] = "raised:" + type(ex).__name__
                 counters["substitution_raised:" + type(ex).__name__] = counters.get("substitution_raised:" + type(ex).__name__, 0) + 1
                 continue
             if val is None:
+                sub_status[-1] = "lazy"
                 counters["substitution_lazy"] = counters.get("substitution_lazy", 0) + 1
                 continue
+            sub_status[-1] = "value"
             counters["substitution_compared"] = counters.get("substitution_compared", 0) + 1
             if not L.close(val, ref):
                 raise Found(
@@ -685,6 +693,13 @@ def check_expr(case, seed):
                 )
         rej = check_program(program, pts, envs, counters)
     except Found as f:
+        if f.raised and f.route != "reject":
+            # "may decline": the program raised at a binding where substituting the arrays into the expression does
+            # not produce a value either (e.g. a shape op applied to a Number, which is a python scalar)
+            idx = [i for i, (env, _) in enumerate(pts) if env is f.env]
+            st = sub_status[idx[0]] if idx and idx[0] < len(sub_status) else None
+            if st is not None and st != "value":
+                return core.decline(key, "program-raises-and-substitution-declines:" + f.raised, counters=counters)
         feats.update(f.extra)
         feats["route"] = f.route
         feats = KNOWN_SITE_FEATURES.get(f.site, feats)
